@@ -502,6 +502,39 @@ def unit_selrange1d(ctx):
             _check_range_sel(ctx, mesh, {"s": (box,)}, 0, a, b, form, f"{base};range=({a}, {b})")
 
 
+def unit_selrange_int(ctx):
+    """integer-typed corners everywhere (region AND subregion given as Python ints) with fractional cells: every range
+    selection (all index pairs, bounds at centres and at faces) must keep the overlapping subregion clipped to the
+    selected cells - a clip face at a non-integer coordinate must not be rounded to an integer"""
+    nd = ctx.choose("ndim", [1, 2])
+    N = ctx.choose("edge", [3, 4])
+    per = ctx.choose("cells-per-unit-length", [2, 4])
+    lo0 = ctx.choose("lower-corner", [0, -2])
+    i0 = ctx.choose("subregion-from", list(range(0, N)))
+    i1 = ctx.choose("subregion-to", list(range(i0 + 1, N + 1)))
+    form = ctx.choose("bounds", ["centres", "faces"])
+    count = N * per
+    if nd == 1:
+        region = df.Region(p1=(lo0,), p2=(lo0 + N,), dims=("a",), units=("nm",))
+        sub = df.Region(p1=(lo0 + i0,), p2=(lo0 + i1,))
+        n = (count,)
+        box = ((i0 * per, i1 * per),)
+    else:
+        region = df.Region(p1=(lo0, 1), p2=(lo0 + N, 3), dims=("a", "b"), units=("nm", "um"))
+        sub = df.Region(p1=(lo0 + i0, 1), p2=(lo0 + i1, 2))
+        n = (count, 4)
+        box = ((i0 * per, i1 * per), (0, 2))
+    raised, mesh = C.raises(lambda: df.Mesh(region=region, n=n, subregions={"s": sub}))
+    if raised:
+        ctx.fail("Mesh(subregions=)/refuses-aligned-box/integer-typed-corners", f"{type(mesh).__name__}: {str(mesh)[:140]}")
+        return
+    base = ctx.key()
+    for a in range(count):
+        for b in range(a, count):
+            ctx.step(1, f"sel(a=cells {a}..{b} at {form})")
+            _check_range_sel(ctx, mesh, {"s": box}, 0, a, b, form, f"{base};range=({a}, {b})")
+
+
 # ---------------------------------------------------------------------------------------------
 # persistence
 
@@ -849,6 +882,7 @@ def units(tier):
         {"name": "aligned1d", "fn": unit_aligned1d, "bound": None},
         {"name": "aligned2d", "fn": unit_aligned2d, "bound": None},
         {"name": "selrange1d", "fn": unit_selrange1d, "bound": None},
+        {"name": "selrange_int", "fn": unit_selrange_int, "bound": None},
         {"name": "reload", "fn": unit_reload, "bound": None},
         {"name": "hist", "fn": unit_hist, "bound": None},
     ]
